@@ -530,6 +530,20 @@ pub fn gen_history(rng: &mut Rng, p: &GenParams, with_probes: bool) -> Vec<Op> {
                 Tm::node("b", vec![], vec![(vec![], a), (vec![], b)])
             }
         };
+        // half of the time (binders allowed) the wide e-node sits under a binder of a node that has a
+        // further child AFTER the binder (let) or BEFORE it (h): one e-node whose shape numbers 11 and more
+        // slots, with a scope that ends in the middle of the numbering
+        let t = if p.binders && sl.len() >= 2 && rng.chance(1, 2) {
+            let x = sl[rng.below(sl.len())];
+            let e = Tm::leaf("p2", vec![sl[rng.below(sl.len())], sl[0]]);
+            if rng.chance(1, 2) {
+                Tm::node("let", vec![], vec![(vec![x], t), (vec![], e)])
+            } else {
+                Tm::node("h", vec![], vec![(vec![], e), (vec![x], t)])
+            }
+        } else {
+            t
+        };
         pool.push(t.clone());
         ops.push(Op::new("add").t(t));
     }
